@@ -483,8 +483,12 @@ class Interp:
                 em.out(r)
                 em.out(r)
             elif m == "popfront":
-                if "xs" not in f or len(a.xs) < 2:
+                if "xs" not in f:
                     return False
+                while len(a.xs) < 3:
+                    # removal at the front is only telling with at least two elements behind it
+                    em.code("%s.xs.push(%d)" % (an, 60 + len(a.xs)))
+                    a.xs.append(60 + len(a.xs))
                 em.code("print %s.popfront()" % an)
                 em.out(str(a.xs.pop(0)))
             elif m == "peekpeer":
